@@ -128,7 +128,9 @@ def h_independence(ctx, scenario):
     if 'B' not in res:
         return
     ctx.prove('batch: network settings unchanged by computing requests', same_net, info=info)
-    rB, pthB, _ = res['B']
+    rB, pthB, revB = res['B']
+    ctx.prove('unidirectional request carries no propagated reverse path (nothing of another request attached to it)',
+              len(revB) == 0, info=dict(info, reverse=[getattr(e, 'uid', '?') for e in revB][:4]))
     ctx.prove('same route', [e.uid for e in pthB] == [e.uid for e in alone['B'][1]], info=info)
     ctx.prove('same verdict and mode', getattr(rB, 'blocking_reason', None) == getattr(alone['B'][0], 'blocking_reason', None)
               and rB.tsp_mode == alone['B'][0].tsp_mode, info=info)
